@@ -1,0 +1,85 @@
+//go:build verif
+
+package adapter
+
+import (
+	"sort"
+	"time"
+
+	mapset "github.com/deckarep/golang-set/v2"
+	"github.com/karagenc/socket.io-go/internal/vhook"
+	"github.com/karagenc/socket.io-go/parser"
+)
+
+func init() {
+	vhook.RegisterConverter(func(v any) (any, bool) {
+		switch x := v.(type) {
+		case mapset.Set[Room]:
+			out := []string{}
+			if x != nil {
+				for _, r := range x.ToSlice() {
+					out = append(out, string(r))
+				}
+			}
+			sort.Strings(out)
+			return out, true
+		case []Room:
+			out := make([]string, len(x))
+			for i, r := range x {
+				out[i] = string(r)
+			}
+			return out, true
+		case Room:
+			return string(x), true
+		case SocketID:
+			return string(x), true
+		case PrivateSessionID:
+			return string(x), true
+		}
+		return nil, false
+	})
+}
+
+// VerifNewSessionAwareAdapterCreator exposes the window and the clean-up period
+// (production hard-codes a one minute period; 0 disables the cleaner goroutine).
+func VerifNewSessionAwareAdapterCreator(maxDisconnectDuration, cleanerPeriod time.Duration) Creator {
+	return func(socketStore SocketStore, parserCreator parser.Creator) Adapter {
+		return verifNewSessionAware(socketStore, parserCreator, maxDisconnectDuration, cleanerPeriod)
+	}
+}
+
+func verifNewSessionAware(socketStore SocketStore, parserCreator parser.Creator, window, period time.Duration) Adapter {
+	in := NewInMemoryAdapterCreator()(socketStore, parserCreator).(*inMemoryAdapter)
+	return newSessionAwareAdapter(in, window, period)
+}
+
+// VerifLogIDs returns the ids of the persisted packets, oldest first.
+func VerifLogIDs(a Adapter) []string {
+	sa, ok := a.(*sessionAwareAdapter)
+	if !ok {
+		return nil
+	}
+	sa.mu.Lock()
+	defer sa.mu.Unlock()
+	out := make([]string, len(sa.packets))
+	for i, p := range sa.packets {
+		out[i] = p.ID
+	}
+	return out
+}
+
+// VerifSessionPIDs returns the private ids of the persisted sessions.
+func VerifSessionPIDs(a Adapter) []string {
+	sa, ok := a.(*sessionAwareAdapter)
+	if !ok {
+		return nil
+	}
+	sa.mu.Lock()
+	defer sa.mu.Unlock()
+	out := []string{}
+	for pid := range sa.sessions {
+		out = append(out, string(pid))
+	}
+	sort.Strings(out)
+	return out
+}
